@@ -108,7 +108,31 @@ def lookalike(element):
     return el if changed else None
 
 
+def _dup_source():
+    class DupParent(Object):
+        class_ = Property(String(), source="class")
+
+    class DupSource(DupParent):
+        kind = Property(Integer(), source="class")  # a second attribute for the same JSON name
+
+    return DupSource
+
+
+def _required_chain():
+    class Draft(Object, required=["author"]):
+        title = Property(String())
+
+    class Anonymous(Draft, required=["title"]):
+        note = Property(String())
+
+    return Anonymous
+
+
 EXTRA_TREES = [
+    ("DupSource(two attributes, one JSON name)", _dup_source),
+    ("Array(DupSource)", lambda: Array(_dup_source())),
+    ("Anonymous(Draft) with explicit required on both", _required_chain),
+    ("Array(Anonymous(Draft))", lambda: Array(_required_chain())),
     ("Array(Element(const=1))", lambda: Array(Element(const=1))),
     ("Element(properties p: enum[0,'a'], q: const [True])", lambda: Element(properties={"p": Property(Element(enum=[0, "a"])), "q": Property(Element(const=[True, {"k": 1.0}]))})),
     ("AnyOf(Integer(const=0), Null())", lambda: AnyOf(Integer(const=0), Null())),
